@@ -348,3 +348,21 @@ Proof.
   exact OffsetLayout.entry_word_i_at_stride.
 Qed.
 Print Assumptions C05_generated_offsets_are_the_layout_offsets.
+
+(* ---- the same accessors as methods of `Value` (value.rs; model ValueApi.v, all statements in Props/ValueApi.v): the tree-level
+   helper applied to v and the byte-level function applied to the encoding of v give the same answer *)
+From JB Require ValueApi ValueApiProofs.
+Theorem C05_value_methods_agree_with_the_byte_accessors : forall v, wfb v = true -> top_ok v ->
+  array_length_w (enc v) = Ok (ValueApi.value_array_length v) /\
+  object_keys_w (enc v) = Ok (option_map enc (ValueApi.value_object_keys v)) /\
+  (forall name, get_by_name_w (enc v) name true = Ok (option_map enc (ValueApi.value_get_by_name_ignore_case v name))) /\
+  as_i64_w (enc v) = Ok (ValueApi.value_as_i64 v) /\ as_u64_w (enc v) = Ok (ValueApi.value_as_u64 v) /\
+  as_bool_w (enc v) = Ok (ValueApi.value_as_bool v) /\ as_str_w (enc v) = Ok (ValueApi.value_as_str v).
+Proof.
+  intros v Hw Ht.
+  split; [exact (ValueApiProofs.value_array_length_bytes v Hw Ht)|]. split; [exact (ValueApiProofs.value_object_keys_bytes v Hw Ht)|].
+  split; [exact (ValueApiProofs.value_get_by_name_ignore_case_bytes v Hw Ht)|].
+  split; [exact (ValueApiProofs.value_as_i64_bytes v Hw Ht)|]. split; [exact (ValueApiProofs.value_as_u64_bytes v Hw Ht)|].
+  split; [exact (ValueApiProofs.value_as_bool_bytes v Hw Ht)|exact (ValueApiProofs.value_as_str_bytes v Hw Ht)].
+Qed.
+Print Assumptions C05_value_methods_agree_with_the_byte_accessors.
